@@ -139,6 +139,9 @@ def add_deg(a, b, sign):
 
 
 CMP = ('lt', 'le', 'gt', 'ge', 'eq', 'ne')
+# predicates whose outcome depends on the binary exponent of the value (not invariant under scaling by 2^k, and different for
+# f32 and f64 at the same real value)
+REPR_PRED = re.compile(r'(Float|f32|f64)::(is_normal|is_subnormal|classify|integer_decode|to_bits)$')
 
 
 def check_body(rep, rule, b, ps, stats):
@@ -168,6 +171,22 @@ def check_body(rep, rule, b, ps, stats):
                 rep.ob(rule, 'comparison:%s:%s' % (short(b.id), 'deg%s-vs-deg%s' % (da, db)), ok,
                        '%s compares a quantity of degree %s with one of degree %s (%s): the outcome changes when both operands are scaled '
                        'by 2^k (an absolute tolerance / constant)' % (b.id, da, db, show(noepoch(x))[:110]), loc=b.loc(line), reason='degree')
+            elif x[0] in ('call', 'pcall') and REPR_PRED.search(x[1]):
+                key = ('repr', noepoch(x))
+                if key in seen:
+                    continue
+                seen.add(key)
+                try:
+                    d = degree(x[2][0]) if x[2] else NA
+                except DegreeError:
+                    d = '?'
+                if d in (NA, POLY):
+                    continue
+                stats['sites'] += 1
+                rep.ob(rule, 'exponent-dependent-predicate:%s:%s' % (short(b.id), x[1].split('::')[-1]), False,
+                       '%s applies %s to a quantity of degree %s (%s): the outcome depends on the binary exponent, so it changes when both '
+                       'operands are scaled by 2^k and differs between f32 and f64' % (b.id, short(x[1]), d, show(noepoch(x[2][0]))[:90]),
+                       loc=b.loc(line), reason='degree')
             elif x[0] == 'agg' and x[1] == 'adt' and x[5].endswith('Coord') and len(x[4]) == 2:
                 key = ('coord', noepoch(x))
                 if key in seen:
